@@ -138,4 +138,4 @@ def obligations(ctx: Ctx):
         Ob(f"{P}.F2", "F", "key-specific quoting (PATTERN/REGEX) applies to string values only", ["octave_mcp.core.emitter:emit_assignment", "octave_mcp.core.emitter:_force_quote_inline_map_value"], ob_key_quoting_guard),
         Ob(f"{P}.F1", "F", "the parser builds sibling lists by append only", [PARSER + ":Parser.*"], ob_parser_append_only),
         Ob(f"{P}.B1", "B", "content read == content written == content of the canonical text, field by field against the model", ["octave_mcp.core.parser:parse", "octave_mcp.core.parser:parse_with_warnings", "octave_mcp.core.emitter:emit"], ob_b1, timeout=3000),
-    ]
+    ] + LX.parse_scalar_obs(P)
